@@ -30,7 +30,15 @@ func ownerID(w *corazawaf.WAF) uint64 { return w.Memoizer().VerifOwnerID() }
 func resetCache()                     { memoize.Reset() }
 
 // describe maps a cached value to (type code, content descriptor) — see CorrC13.art_type / art_desc
-func describe(v any) (int, string) {
+func describe(v any) (code int, desc string) {
+	defer func() {
+		if r := recover(); r != nil {
+			code, desc = 0, fmt.Sprintf("%T: %v", v, r)
+		}
+	}()
+	if rv := reflect.ValueOf(v); !rv.IsValid() || (rv.Kind() == reflect.Pointer && rv.IsNil()) {
+		return 0, fmt.Sprintf("nil %T", v)
+	}
 	switch x := v.(type) {
 	case *regexp.Regexp:
 		return 1, x.String()
